@@ -62,6 +62,18 @@ func runC17(p *Prog, r *Report, tier string) {
 				"a template field can be created without a registry lookup ("+p.describePath(fr, trail)+"): one kind of element (IANA / enterprise) is never resolved", true)
 		}
 		specTargets := decodeTargets(specDecode)
+		// the handling of a registry miss, on the enumerated paths from each lookup to the exits of the field reader:
+		// every path on which the lookup error is non-nil either knows decodingMode == Strict and returns an error, or
+		// knows it is not Strict and creates the template field from the substitute
+		// NewInfoElement("", lookedUpID, OctetArray, lookedUpEnterprise, wireFieldLength) - whichever way the two tests
+		// (miss, mode) are nested, combined with && or written one after the other
+		isStrict := func(cf cmpForm) bool {
+			if cf.Op != token.EQL || !isFieldLoad(cf.X, "pkg/collector.CollectingProcess.decodingMode") {
+				return false
+			}
+			sv, ok := constString(cf.Y)
+			return ok && sv == "Strict"
+		}
 		for i, lin := range lookups {
 			lk := lin.(*ssa.Call)
 			branch := fmt.Sprintf("%s: lookup #%d", fnKey(fr), i+1)
@@ -73,95 +85,119 @@ func runC17(p *Prog, r *Report, tier string) {
 				r.Violation("R-SIBLING.unknown", branch+" miss handling", p.instrPos(lk), "the lookup error is not examined")
 				continue
 			}
-			// miss edge
-			var miss *ssa.BasicBlock
-			for _, ref := range refs(errV) {
-				if b, ok := ref.(*ssa.BinOp); ok {
-					if ne, ok := isNilCompare(b, errV); ok {
-						for _, r2 := range refs(b) {
-							if iff, ok := r2.(*ssa.If); ok {
-								if ne {
-									miss = iff.Block().Succs[0]
-								} else {
-									miss = iff.Block().Succs[1]
-								}
+			whyStrict, whySub := "", ""
+			nStrict, nLenient := 0, 0
+			w := &absWalker{MaxPaths: 8192}
+			checkSub := func(st *absState, sub *ssa.Call) string {
+				a := sub.Call.Args
+				if len(a) < 5 {
+					return "the substitute is not built with NewInfoElement(name, id, type, enterprise, length)"
+				}
+				if sv, ok := constString(a[0]); !ok || sv != "" {
+					return "the substitute has a name: drop mode identifies unknown elements by the empty name"
+				}
+				if st.resolve(a[1]) != st.resolve(lk.Call.Args[0]) && !sameValue(a[1], lk.Call.Args[0]) {
+					return "the substitute's element id is not the id that was looked up"
+				}
+				if v, ok := constInt(a[2]); !ok || v != 0 {
+					return "the substitute's data type is not OctetArray"
+				}
+				if !sameCell(a[3], lk.Call.Args[1]) && st.resolve(a[3]) != st.resolve(lk.Call.Args[1]) {
+					return "the substitute's enterprise number is not the one that was looked up"
+				}
+				if u, ok := a[4].(*ssa.UnOp); !ok || len(specTargets) != 2 || u.X != ssa.Value(specTargets[1]) {
+					return "the substitute's length is not the field length read from this field specifier (registry default, VariableLength or a cached value would mis-frame the data records)"
+				}
+				return ""
+			}
+			w.OnInstr = func(st *absState, in ssa.Instruction) {
+				if c, ok := in.(*ssa.Call); ok && calleeName(&c.Call) == "pkg/entities.NewInfoElement" {
+					st.Events = append(st.Events, absEvent{Kind: "substitute", In: in})
+				}
+				if c, ok := in.(*ssa.Call); ok && calleeName(&c.Call) == "pkg/entities.DecodeAndCreateInfoElementWithValue" {
+					st.Events = append(st.Events, absEvent{Kind: "create", In: in})
+				}
+			}
+			w.OnEnd = func(st *absState, last ssa.Instruction) {
+				rt, isRet := last.(*ssa.Return)
+				if _, isPanic := last.(*ssa.Panic); isPanic {
+					return
+				}
+				isNil, known := st.bools["nil:"+st.key(errV)]
+				if !known || isNil {
+					return // hit, or the path does not test the error (reported by R-ERR of C03)
+				}
+				strict := 0
+				for _, cd := range st.Conds {
+					for _, cf := range cmpForms(cd.If.Cond) {
+						if isStrict(cf) {
+							if cf.Succ == cd.Succ {
+								strict = 1
+							} else {
+								strict = -1
 							}
 						}
 					}
 				}
-			}
-			if miss == nil {
-				r.Violation("R-SIBLING.unknown", branch+" miss handling", p.instrPos(lk), "no branch on the lookup error")
-				continue
-			}
-			// strict test at the head of the miss edge
-			iff := ifOf(miss)
-			strictOK := false
-			var lenient *ssa.BasicBlock
-			if iff != nil {
-				for _, cf := range cmpForms(iff.Cond) {
-					if cf.Op != token.EQL || !isFieldLoad(cf.X, "pkg/collector.CollectingProcess.decodingMode") {
-						continue
+				// a path that goes on to the next field (the reader spliced into the field loop) has succeeded
+				errNil, errKnown := true, true
+				if isRet && len(rt.Results) > 0 {
+					errNil, errKnown = st.nilness(rt.Results[len(rt.Results)-1])
+				}
+				switch strict {
+				case 1:
+					nStrict++
+					if !errKnown || errNil {
+						whyStrict = "a path that knows the mode to be Strict does not return an error (" + p.instrPos(last) + ")"
 					}
-					if s, ok := constString(cf.Y); ok && s == "Strict" {
-						if onlyErrorReturnsFrom(miss.Succs[cf.Succ]) {
-							strictOK = true
-							lenient = miss.Succs[1-cf.Succ]
+				default:
+					nLenient++
+					var sub, create *ssa.Call
+					for _, e := range st.Events {
+						if e.Kind == "substitute" {
+							sub = e.In.(*ssa.Call)
+						}
+						if e.Kind == "create" {
+							create = e.In.(*ssa.Call)
+						}
+					}
+					if errKnown && !errNil && create == nil {
+						if strict == 0 {
+							whyStrict = "on a registry miss an error is returned without a test of decodingMode == Strict (" + p.instrPos(last) + ")"
+						} else {
+							whySub = "in a lenient mode a registry miss can still end in an error (" + p.instrPos(last) + "): the unknown element is not replaced by the placeholder on that path"
+						}
+						return
+					}
+					if strict == 0 {
+						whyStrict = "on a registry miss strict mode is not tested before the field is created (test missing, inverted or not first)"
+					}
+					switch {
+					case sub == nil:
+						whySub = "the lenient edge does not build NewInfoElement(\"\", id, OctetArray, enterprise, wireLength) directly (cached / shared / other element)"
+					case create == nil || st.resolve(create.Call.Args[0]) != ssa.Value(sub):
+						whySub = "the substitute element is not the one the template field is created from"
+					default:
+						if wv := checkSub(st, sub); wv != "" {
+							whySub = wv
 						}
 					}
 				}
 			}
-			r.Check(strictOK, "R-SIBLING.strict", branch+": strict mode rejects an unknown element", p.instrPos(lk), "miss && decodingMode == Strict => error return",
-				"on a registry miss strict mode does not return an error in this branch (test missing, inverted or not first)", true)
-			if lenient == nil {
-				continue
+			w.LoopHead = loopHeadOf(lk.Block())
+			w.walk(newAbsState(), lk.Block(), instrIndex(lk)+1)
+			if w.Overflow || (w.Looped && w.LoopHead == nil) {
+				whyStrict = "the field reader is not a loop-free decision after the lookup"
 			}
-			// substitute
-			var sub *ssa.Call
-			for _, in := range lenient.Instrs {
-				if c, ok := in.(*ssa.Call); ok && calleeName(&c.Call) == "pkg/entities.NewInfoElement" {
-					sub = c
-				}
+			if nStrict == 0 && whyStrict == "" {
+				whyStrict = "on a registry miss strict mode does not return an error in this branch (test missing, inverted or not first)"
 			}
-			why := ""
-			if sub == nil {
-				why = "the lenient edge does not build NewInfoElement(\"\", id, OctetArray, enterprise, wireLength) directly (cached / shared / other element)"
-			} else {
-				a := sub.Call.Args
-				if s, ok := constString(a[0]); !ok || s != "" {
-					why = "the substitute has a name: drop mode identifies unknown elements by the empty name"
-				}
-				if a[1] != lk.Call.Args[0] {
-					why = "the substitute's element id is not the id that was looked up"
-				}
-				if v, ok := constInt(a[2]); !ok || v != 0 {
-					why = "the substitute's data type is not OctetArray"
-				}
-				if !sameCell(a[3], lk.Call.Args[1]) {
-					why = "the substitute's enterprise number is not the one that was looked up"
-				}
-				okLen := false
-				if u, ok := a[4].(*ssa.UnOp); ok && len(specTargets) == 2 && u.X == ssa.Value(specTargets[1]) {
-					okLen = true
-				}
-				if !okLen {
-					why = "the substitute's length is not the field length read from this field specifier (registry default, VariableLength or a cached value would mis-frame the data records)"
-				}
-				// flows to the decoded element
-				flows := false
-				for _, ref := range refs(sub) {
-					if _, ok := ref.(*ssa.Phi); ok {
-						flows = true
-					}
-					if c, ok := ref.(*ssa.Call); ok && calleeName(&c.Call) == "pkg/entities.DecodeAndCreateInfoElementWithValue" {
-						flows = true
-					}
-				}
-				if !flows {
-					why = "the substitute element is not the one the template field is created from"
-				}
+			r.Check(whyStrict == "", "R-SIBLING.strict", branch+": strict mode rejects an unknown element", p.instrPos(lk), "miss && decodingMode == Strict => error return",
+				"on a registry miss strict mode does not return an error in this branch (test missing, inverted or not first): "+whyStrict, true)
+			if nLenient == 0 && whySub == "" {
+				whySub = "no lenient path after a registry miss"
 			}
-			r.Check(why == "", "R-SIBLING.unknown", branch+": substitute for an unknown element", p.instrPos(lk), "NewInfoElement(\"\", lookedUpID, OctetArray, lookedUpEnterprise, wireFieldLength)", why, true)
+			r.Check(whySub == "", "R-SIBLING.unknown", branch+": substitute for an unknown element", p.instrPos(lk), "NewInfoElement(\"\", lookedUpID, OctetArray, lookedUpEnterprise, wireFieldLength)", whySub, true)
 		}
 	}
 
